@@ -379,7 +379,7 @@ func init() {
 	register(&Check{
 		ID: "C02",
 		Expl: "Decides the disciplines that keep the RIB structures consistent under every interleaving: (E1b) shard maps, destination path lists, table/VRF maps, RT and MAC indexes and the Adj-RIB are only written (and, where armed, read) with their lock in the interprocedural must-held set, and the requires-lock helpers are only called with the shard lock held; " +
-			"(E1b.active-destination) active destinations never leave their shard's critical section — readers get snapshots; (E6.who-may-write) only the withdraw/insert primitives and Adj-RIB maintenance write a path list; (E6.update-critical-section) one RIB change is one uninterrupted exclusive shard section.",
+			"(E1b.active-destination) active destinations never leave their shard's critical section — readers get snapshots; (E6.who-may-write) only the withdraw/insert primitives and Adj-RIB maintenance write a path list; (E6.update-critical-section) one RIB change is one uninterrupted exclusive shard section. Also: (E6.stale-session-guard) messages stamped before the current session's Uptime are dropped before handleUpdate; (E3.adj-clone-rejected) clones kept in the Adj-RIB-In keep the rejected mark.",
 		Not: "Implicit/explicit withdraw matching, counters, lookups, best-path event replay and 'exactly the latest un-withdrawn route' over all histories are value-level and not decided.",
 		Run: func(c *Ctx) {
 			c.ruleGuarded("E1b.guarded", c02Guard, 40)
@@ -396,6 +396,8 @@ func init() {
 			c.ruleActiveDestinations()
 			c.ruleMacIndexHandles()
 			c.ruleAdjRibStoresIncoming()
+			c.ruleStaleSessionGuard("E6.stale-session-guard")
+			c.ruleAdjCloneKeepsRejection()
 		},
 	})
 	register(&Check{
